@@ -37,7 +37,7 @@ def items(G):
     yield G.natstr("Op", "taprootOpCodeFunctions", table("TAPROOT_OP_CODE_FUNCTIONS"))
 
     # ---- timelock constants
-    for py, lean in (("MAX_LOCKTIME", "maxLocktime"), ("MAX_SEQUENCE", "maxSequence"), ("BLOCK_LIMIT", "blockLimit"),
+    for py, lean in (("MAX_LOCKTIME", "opMaxLocktime"), ("MAX_SEQUENCE", "opMaxSequence"), ("BLOCK_LIMIT", "blockLimit"),
                      ("SEQUENCE_DISABLE_RELATIVE_FLAG", "seqDisableFlag"),
                      ("SEQUENCE_RELATIVE_TIME_FLAG", "seqTimeFlag"), ("SEQUENCE_MASK", "seqMask")):
         yield G.nat("Op", lean, lambda py=py: G.const(T, py))
@@ -97,6 +97,25 @@ def items(G):
                 res.append(fn.name + ":" + ";".join(o for _, _, o in ops))
         return sorted(res), f"{O}:op_*"
     yield G.strs("Op", "opCompareOps", cmpops)
+
+    # ---- C06: Witness.has_annex (`len(self.items) >= K and self.items[-1][0] == TAG`), F05f / F06b
+    WIT = "buidl/witness.py"
+
+    def annex(kind):
+        def f():
+            cs = G.compares(WIT, "Witness.has_annex")
+            for op, v, loc, side in cs:
+                if kind == "min" and op in ("GtE", "Gt") and isinstance(v, int):
+                    return (v if op == "GtE" else v + 1), loc
+                if kind == "tag" and op == "Eq" and isinstance(v, int):
+                    return v, loc
+            if kind == "min":
+                # the bare truthiness test `len(self.items) and …` of the unrepaired code
+                return 1, f"{WIT}:Witness.has_annex"
+            _unloc("Witness.has_annex tag")
+        return f
+    yield G.nat("Op", "opAnnexMinItems", annex("min"))
+    yield G.nat("Op", "opAnnexTag", annex("tag"))
 
     # ---- integer literals of the number codec
     yield G.nats("Op", "encodeNumLiterals", lambda: ([v for v, _ in G.int_consts(O, "encode_num")], f"{O}:encode_num"))
